@@ -5,37 +5,61 @@
 // every partition of every existing topic. All script steps, producer rounds and polls run in one goroutine, so the
 // event order of calls and returned records is the program order.
 //
-// op:   sel <seed> <mode n|r> <steps> <cfgsel>
+// op:   sel <seed> <mode n|r> <steps> <cfgsel> [<plan 0|s|l|y>]
 //
 //	topics are numbered by their index in selNames; mode n: ConsumeTopics(names)+ConsumePartitions, r: ConsumeRegex
 //
-// impl: cfg:<mode> then events
+// plan (topic re-creation): a topic -- mostly one the consumer selects -- is deleted through the admin client at a random
+// step and created again (same name, new topic ID, 1-4 partitions) after a delay; the ordinary steps go on in between and
+// the producer rounds after the re-creation write to the new incarnation. The consumer runs with
+// ConsiderMissingTopicDeletedAfter(selWindow = 4 s).
+//
+//	s: delay 0.6-2.0 s (shorter than the window)        l: delay 5.5-8 s (longer than the window)
+//	   for both, under regex selection: the topic is deleted only once the client has known it for selWindow + 2 s, and
+//	   it is re-created only after the client was delivered two metadata responses after the deletion (it has seen the
+//	   topic missing at least once): the envelope in which the regex consumer's "missing topic => deleted => purge"
+//	   mechanism promises re-discovery. Named selection: the documented protocol for a re-created topic is "the cursor
+//	   keeps the old topic ID, the fetch errors UNKNOWN_TOPIC_ID are returned to the user, the user purges and re-adds"
+//	   (pkg/kgo/source.go, cursor.topicID): the scenario's user does exactly that on every UNKNOWN_TOPIC_ID poll error.
+//	y: (never generated; for reports) no ageing and no waiting for a metadata response: a young topic re-created at once
+//	0: no re-creation (also when the token is absent: the corpus ops of before)
+//	with 25 % a second deletion + re-creation follows the first.
+//
+// impl: cfg:<mode>[:<plan>] then events
 //
 //	Re:i / Ex:i            include / exclude pattern number (informational; selRe / selEx)
 //	St:t                   ConsumeTopics names topic t (mode n)        Sp:t:p   ConsumePartitions names partition p of t
-//	Cr:t:n:int:m:x         topic t created with n partitions; int: created as internal topic; m: t matches an include
-//	                       pattern, x: t matches an exclude pattern (evaluated by Go's regexp; 0 in mode n)
+//	Cr:t:g:n:int:m:x       topic t created (incarnation g: 0 the first time, +1 per re-creation) with n partitions; int: created
+//	                       as internal topic; m: t matches an include pattern, x: t matches an exclude pattern (evaluated
+//	                       by Go's regexp; 0 in mode n)
 //	Gr:t:n                 topic t grown to n partitions           De:t     topic t deleted
+//	E:t                    a poll returned UNKNOWN_TOPIC_ID for topic t (informational; mode n: followed by Pu:t At:t)
 //	At:t  Ap:t:p  Rp:t:p  Pu:t   AddConsumeTopics / AddConsumePartitions / RemoveConsumePartitions / PurgeTopicsFromConsuming returned
-//	D:id:t:p:off           produced record acknowledged              Dx       a produce or admin step failed (coverage is not judged)
-//	V:t:p:off:id           a record returned by a poll
+//	D:id:t:g:p:off         produced record acknowledged (to incarnation g of t: the one existing when the round ran; record keys
+//	                       are unique ids, so a returned record is attributed to its incarnation unambiguously)
+//	Dx                     a produce or admin step failed (coverage is not judged)
+//	V:t:g:p:off:id         a record returned by a poll (g: the incarnation record id was produced to)
 //	M                      a Metadata response was delivered to the consumer client (refresh mark)
 //	Q
 package main
 
 import (
 	"context"
+	"errors"
 	"fmt"
 	"os"
 	"regexp"
+	"sort"
 	"strconv"
 	"strings"
 	"sync"
+	"sync/atomic"
 	"testing"
 	"testing/synctest"
 	"time"
 
 	"github.com/twmb/franz-go/pkg/kadm"
+	"github.com/twmb/franz-go/pkg/kerr"
 	"github.com/twmb/franz-go/pkg/kfake"
 	"github.com/twmb/franz-go/pkg/kgo"
 	"verifharness/hx"
@@ -49,17 +73,28 @@ var selInternal = map[int]bool{6: true, 7: true, 9: true}
 var selRe = []string{"^a", "^(a|b)1$", ".*", "^__", "b", "^[ab][0-9]$"}
 var selEx = []string{"2$", "^ab$", "^__consumer", "^zz"}
 
+// ConsiderMissingTopicDeletedAfter of the consumer (virtual time)
+const selWindow = 4 * time.Second
+
 func genSel(a hx.Args) {
 	r := hx.NewRng(a.Seed ^ 0x39)
 	n := a.N(90, 1500)
 	for i := 0; i < n; i++ {
 		mode := hx.Pick(r, []string{"n", "n", "r", "r", "r"})
-		hx.Emit("sel %d %s %d %d", r.U64()%1000000, mode, 16+r.Intn(14), r.Intn(1<<16))
+		plan := hx.Pick(r, []string{"0", "0", "0", "s", "s", "s", "s", "l", "l", "l"})
+		hx.Emit("sel %d %s %d %d %s", r.U64()%1000000, mode, 16+r.Intn(14), r.Intn(1<<16), plan)
 	}
 }
 
 func runSel(t *testing.T, tk []string) string {
-	if tk[0] != "sel" || len(tk) != 5 || (tk[2] != "n" && tk[2] != "r") {
+	if tk[0] != "sel" || (len(tk) != 5 && len(tk) != 6) || (tk[2] != "n" && tk[2] != "r") {
+		return "bad-op"
+	}
+	plan := "0"
+	if len(tk) == 6 {
+		plan = tk[5]
+	}
+	if plan != "0" && plan != "s" && plan != "l" && plan != "y" {
 		return "bad-op"
 	}
 	seed := uint64(hx.Atoi(tk[1]))
@@ -67,6 +102,7 @@ func runSel(t *testing.T, tk []string) string {
 	steps, cfgsel := int(hx.Atoi(tk[3])), uint64(hx.Atoi(tk[4]))
 	rng := hx.NewRng(seed)
 	crng := hx.NewRng(cfgsel*7919 + 13)
+	prng := hx.NewRng(seed*2654435761 + cfgsel + 0x5e1) // the re-creation plan has its own stream: the script of an op does not depend on the plan
 	log := &sim.Log{}
 	partial := func() string { return log.String() }
 	sim.Partial.Store(&partial)
@@ -74,6 +110,7 @@ func runSel(t *testing.T, tk []string) string {
 	net := &sim.Net{}
 	// refresh marks: Metadata responses delivered on connections whose requests carry the consumer's client id
 	var cmu sync.Mutex
+	var nMeta atomic.Int64
 	consConn := map[int]bool{}
 	net.OnRequest = func(conn int, key int16, frame []byte, act sim.Action) {
 		if len(frame) >= 10 {
@@ -91,6 +128,7 @@ func runSel(t *testing.T, tk []string) string {
 		cmu.Unlock()
 		if key == 3 && delivered && isCons {
 			log.Add("M")
+			nMeta.Add(1)
 		}
 	}
 	base := int(9000 + (portBase.Add(1)%500)*10)
@@ -113,8 +151,11 @@ func runSel(t *testing.T, tk []string) string {
 	// configuration
 	var incl, excl []*regexp.Regexp
 	var copts []kgo.Opt
-	parts := map[int]int{}    // existing topics -> partition count
-	deleted := map[int]bool{} // never recreated
+	parts := map[int]int{}        // existing topics -> partition count
+	gen := map[int]int{}          // incarnation of the topic (of the last one when it is deleted)
+	ever := map[int]bool{}        // the topic existed at some time
+	bornAt := map[int]time.Time{} // regex mode: the client cannot know the topic longer than since then (creation, purge)
+	interest := map[int]bool{}    // named mode: topics the configuration or a call names
 	if regex {
 		var ps []string
 		for _, i := range pickSome(crng, len(selRe), 1+crng.Intn(2)) {
@@ -138,6 +179,7 @@ func runSel(t *testing.T, tk []string) string {
 		for _, i := range pickSome(crng, len(selNames), 1+crng.Intn(3)) {
 			names = append(names, selNames[i])
 			named[i] = true
+			interest[i] = true
 			log.Add("St:%d", i)
 		}
 		copts = append(copts, kgo.ConsumeTopics(names...))
@@ -153,6 +195,7 @@ func runSel(t *testing.T, tk []string) string {
 					log.Add("Sp:%d:%d", i, p)
 				}
 				pm[selNames[i]] = m
+				interest[i] = true
 			}
 			if len(pm) > 0 {
 				copts = append(copts, kgo.ConsumePartitions(pm))
@@ -180,15 +223,21 @@ func runSel(t *testing.T, tk []string) string {
 			return
 		}
 		parts[i] = n
+		if ever[i] {
+			gen[i]++
+		}
+		ever[i] = true
+		bornAt[i] = time.Now()
 		m, x := matches(i)
-		log.Add("Cr:%d:%d:%d:%d:%d", i, n, b2i(selInternal[i]), b2i(m), b2i(x))
+		log.Add("Cr:%d:%d:%d:%d:%d:%d", i, gen[i], n, b2i(selInternal[i]), b2i(m), b2i(x))
 	}
 	// some topics exist before the consumer starts
 	for _, i := range pickSome(rng, len(selNames), 2+rng.Intn(3)) {
 		create(i, 1+rng.Intn(3))
 	}
 	copts = append(copts, common...)
-	copts = append(copts, kgo.ClientID("cons"), kgo.FetchMaxWait(40*time.Millisecond), kgo.MetadataMinAge(50*time.Millisecond), kgo.MetadataMaxAge(250*time.Millisecond))
+	copts = append(copts, kgo.ClientID("cons"), kgo.FetchMaxWait(40*time.Millisecond), kgo.MetadataMinAge(50*time.Millisecond), kgo.MetadataMaxAge(250*time.Millisecond),
+		kgo.ConsiderMissingTopicDeletedAfter(selWindow))
 	if os.Getenv("VERIF_DEBUG") != "" {
 		copts = append(copts, kgo.WithLogger(kgo.BasicLogger(os.Stderr, kgo.LogLevelDebug, nil)))
 	}
@@ -196,7 +245,9 @@ func runSel(t *testing.T, tk []string) string {
 	if err != nil {
 		return "ERR:consumer:" + err.Error()
 	}
+	consStart := time.Now()
 	nextID := 0
+	idGen := map[int]int{}
 	produceAll := func() {
 		if len(parts) == 0 {
 			return
@@ -215,6 +266,7 @@ func runSel(t *testing.T, tk []string) string {
 				nextID++
 				r := &kgo.Record{Topic: selNames[i], Partition: int32(p), Key: []byte(strconv.Itoa(nextID))}
 				ids[r] = nextID
+				idGen[nextID] = gen[i]
 				recs = append(recs, r)
 			}
 		}
@@ -223,7 +275,7 @@ func runSel(t *testing.T, tk []string) string {
 				log.Add("Dx")
 				continue
 			}
-			log.Add("D:%d:%d:%d:%d", ids[res.Record], selIndex(res.Record.Topic), res.Record.Partition, res.Record.Offset)
+			log.Add("D:%d:%d:%d:%d:%d", ids[res.Record], selIndex(res.Record.Topic), idGen[ids[res.Record]], res.Record.Partition, res.Record.Offset)
 		}
 	}
 	poll := func(d time.Duration) int {
@@ -233,9 +285,46 @@ func runSel(t *testing.T, tk []string) string {
 		n := 0
 		fs.EachRecord(func(r *kgo.Record) {
 			id, _ := strconv.Atoi(string(r.Key))
-			log.Add("V:%d:%d:%d:%d", selIndex(r.Topic), r.Partition, r.Offset, id)
+			g, ok := idGen[id]
+			if !ok {
+				g = 99
+			}
+			log.Add("V:%d:%d:%d:%d:%d", selIndex(r.Topic), g, r.Partition, r.Offset, id)
 			n++
 		})
+		// the loud stall of a re-created topic: the cursors keep the old topic ID and the fetch error is handed to the
+		// user, who (named selection) must purge the topic and add it again
+		unk := map[int]bool{}
+		anyErr := false
+		fs.EachError(func(t string, _ int32, err error) {
+			if errors.Is(err, context.DeadlineExceeded) || errors.Is(err, context.Canceled) {
+				return
+			}
+			anyErr = true
+			if errors.Is(err, kerr.UnknownTopicID) {
+				unk[selIndex(t)] = true
+			}
+		})
+		var us []int
+		for i := range unk {
+			us = append(us, i)
+		}
+		sort.Ints(us)
+		for _, i := range us {
+			log.Add("E:%d", i)
+			hx.St.Inc("sel.unknown-topic-id-error")
+			if !regex && i < len(selNames) {
+				co.PurgeTopicsFromConsuming(selNames[i])
+				log.Add("Pu:%d", i)
+				co.AddConsumeTopics(selNames[i])
+				log.Add("At:%d", i)
+				interest[i] = true
+				hx.St.Inc("sel.step.purge-and-readd")
+			}
+		}
+		if anyErr {
+			time.Sleep(20 * time.Millisecond) // the user's error handler: a poll that returns errors at once must not spin
+		}
 		return n
 	}
 	existing := func() []int {
@@ -253,12 +342,136 @@ func runSel(t *testing.T, tk []string) string {
 		}
 		return rng.Intn(len(selNames))
 	}
+	// the re-creation plan
+	cycles := 0
+	if plan != "0" {
+		cycles = 1
+		if prng.Chance(25) {
+			cycles = 2
+		}
+	}
+	nextDel := prng.Intn(max(steps-4, 1))
+	pending, pendingAt := -1, time.Time{}
+	wanted := func(i int) bool {
+		if regex {
+			m, x := matches(i)
+			return m && !x && !selInternal[i]
+		}
+		return interest[i]
+	}
+	pollFor := func(d time.Duration) {
+		for dl := time.Now().Add(d); time.Now().Before(dl); {
+			poll(min(250*time.Millisecond, max(time.Until(dl), time.Millisecond)))
+		}
+	}
+	startDelete := func() bool {
+		xs := existing()
+		if len(xs) == 0 {
+			return false
+		}
+		var pref []int
+		for _, i := range xs {
+			if wanted(i) {
+				pref = append(pref, i)
+			}
+		}
+		i := hx.Pick(prng, xs)
+		if len(pref) > 0 && prng.Chance(85) {
+			i = hx.Pick(prng, pref)
+		}
+		if plan != "y" {
+			// the client has known the topic for longer than the window (its `when` is in whole seconds and set at the
+			// first metadata response with the topic: two seconds of margin)
+			born := bornAt[i]
+			if born.Before(consStart) {
+				born = consStart
+			}
+			if w := time.Until(born.Add(selWindow + 2*time.Second)); w > 0 {
+				pollFor(w)
+			}
+		}
+		if prng.Chance(60) {
+			produceAll()
+			pollFor(time.Duration(prng.Intn(400)) * time.Millisecond)
+		}
+		if _, err := adm.DeleteTopic(ctx, selNames[i]); err != nil {
+			log.Add("Dx")
+			return true
+		}
+		delete(parts, i)
+		log.Add("De:%d", i)
+		hx.St.Inc("sel.plan.delete")
+		if wanted(i) {
+			hx.St.Inc("sel.plan.delete-of-selected")
+		}
+		at := time.Now()
+		var d time.Duration
+		switch plan {
+		case "s":
+			d = time.Duration(600+prng.Intn(1400)) * time.Millisecond
+		case "l":
+			d = time.Duration(5500+prng.Intn(2500)) * time.Millisecond
+		default:
+			d = time.Duration(prng.Intn(1000)) * time.Millisecond
+		}
+		if plan != "y" {
+			// the client sees the topic missing at least once: two metadata responses after the deletion
+			m0 := nMeta.Load()
+			for dl := time.Now().Add(3 * time.Second); nMeta.Load() < m0+2 && time.Now().Before(dl); {
+				poll(100 * time.Millisecond)
+			}
+		}
+		pending, pendingAt = i, at.Add(d)
+		return true
+	}
+	// named selection: the user who re-created a topic the consumer is meant to consume follows the documented protocol
+	// for re-created topics (purge, add again), at once or a little later; (the UNKNOWN_TOPIC_ID poll errors alone are not
+	// relied upon: against kfake they stop once the client opens a new fetch session after the deletion, see the report)
+	readd, readdAt := -1, time.Time{}
+	doReadd := func() {
+		i := readd
+		readd = -1
+		co.PurgeTopicsFromConsuming(selNames[i])
+		log.Add("Pu:%d", i)
+		co.AddConsumeTopics(selNames[i])
+		log.Add("At:%d", i)
+		hx.St.Inc("sel.plan.purge-and-readd-after-recreate")
+	}
+	recreate := func() {
+		i := pending
+		pending = -1
+		cycles--
+		if readd >= 0 {
+			doReadd()
+		}
+		create(i, 1+prng.Intn(4))
+		hx.St.Inc("sel.plan.recreate." + plan)
+		if !regex && interest[i] {
+			readd, readdAt = i, time.Now().Add(time.Duration(prng.Intn(3)*prng.Intn(500))*time.Millisecond)
+			if !time.Now().Before(readdAt) {
+				doReadd()
+			}
+		}
+		if prng.Chance(70) {
+			produceAll()
+		}
+	}
 	for s := 0; s < steps; s++ {
+		if readd >= 0 && !time.Now().Before(readdAt) {
+			doReadd()
+		}
+		if pending >= 0 && !time.Now().Before(pendingAt) {
+			recreate()
+			nextDel = s + 1 + prng.Intn(4)
+		}
+		if pending < 0 && cycles > 0 && s >= nextDel {
+			startDelete()
+		}
 		switch k := rng.Intn(20); {
 		case k < 3: // create a topic that never existed
 			var cand []int
 			for i := range selNames {
-				if parts[i] == 0 && !deleted[i] {
+				if !ever[i] {
 					cand = append(cand, i)
 				}
 			}
@@ -283,7 +496,6 @@ func runSel(t *testing.T, tk []string) string {
 				i := hx.Pick(rng, xs)
 				if _, err := adm.DeleteTopic(ctx, selNames[i]); err == nil {
 					delete(parts, i)
-					deleted[i] = true
 					log.Add("De:%d", i)
 					hx.St.Inc("sel.step.delete")
 				} else {
@@ -294,12 +506,14 @@ func runSel(t *testing.T, tk []string) string {
 			i := anyTopic()
 			co.AddConsumeTopics(selNames[i])
 			log.Add("At:%d", i)
+			interest[i] = true
 			hx.St.Inc("sel.step.addtopic")
 		case k < 10:
 			i := anyTopic()
 			p := rng.Intn(max(parts[i], 1) + 1)
 			co.AddConsumePartitions(map[string]map[int32]kgo.Offset{selNames[i]: {int32(p): kgo.NewOffset().AtStart()}})
 			log.Add("Ap:%d:%d", i, p)
+			interest[i] = true
 			hx.St.Inc("sel.step.addpart")
 		case k < 12:
 			i := anyTopic()
@@ -317,6 +531,7 @@ func runSel(t *testing.T, tk []string) string {
 			i := anyTopic()
 			co.PurgeTopicsFromConsuming(selNames[i])
 			log.Add("Pu:%d", i)
+			bornAt[i] = time.Now() // regex mode: the topic is discovered anew
 			hx.St.Inc("sel.step.purge")
 		case k < 17:
 			produceAll()
@@ -327,8 +542,24 @@ func runSel(t *testing.T, tk []string) string {
 			poll(time.Duration(30+rng.Intn(150)) * time.Millisecond)
 		}
 	}
+	// a deletion still to come or a re-creation still due happens before the quiet end
+	for guard := 0; (pending >= 0 || cycles > 0) && guard < 6; guard++ {
+		if pending >= 0 {
+			if w := time.Until(pendingAt); w > 0 {
+				pollFor(w)
+			}
+			recreate()
+		} else if !startDelete() {
+			break
+		}
+	}
+	if readd >= 0 {
+		doReadd()
+	}
 	// quiet end: a producer round, three seconds of polls, a last producer round, then polls for at least three
-	// seconds and until four empty ones in a row
+	// seconds -- with a re-creation plan for the window plus three seconds: a re-created topic is re-discovered at the
+	// latest when the old incarnation is considered deleted, plus a metadata refresh and the back-offs -- and until four
+	// empty ones in a row
 	// (time-based: a poll returns at once while records are available, and the client retries a failed offset load --
 	// a pinned partition whose topic did not exist yet -- only after a one second back-off plus a metadata refresh)
 	produceAll()
@@ -337,8 +568,12 @@ func runSel(t *testing.T, tk []string) string {
 	}
 	produceAll()
 	empty := 0
-	deadline := time.Now().Add(3 * time.Second)
-	for i := 0; (empty < 4 || time.Now().Before(deadline)) && i < 400; i++ {
+	quiet := 3 * time.Second
+	if plan != "0" {
+		quiet += selWindow
+	}
+	deadline := time.Now().Add(quiet)
+	for i := 0; (empty < 4 || time.Now().Before(deadline)) && i < 800; i++ {
 		if poll(300*time.Millisecond) == 0 {
 			empty++
 		} else {
@@ -351,7 +586,11 @@ func runSel(t *testing.T, tk []string) string {
 	log.Add("Q")
 	hx.St.Inc("scen.total")
 	hx.St.Inc("sel.mode." + tk[2])
-	return fmt.Sprintf("cfg:%s ", tk[2]) + log.String()
+	hx.St.Inc("sel.plan." + plan)
+	if plan == "0" {
+		return fmt.Sprintf("cfg:%s ", tk[2]) + log.String()
+	}
+	return fmt.Sprintf("cfg:%s:%s ", tk[2], plan) + log.String()
 }
 
 func selIndex(name string) int {
